@@ -876,6 +876,8 @@ pub fn run(ctx: &Ctx) -> Outcome {
         let evs: Vec<String> = h.iter().map(|i| format!("{:?}", ALPHABET[*i])).collect();
         out.violation(sig.clone(), format!("history {:?}: {detail}", evs), json!({"events": h, "event_names": evs, "trace": trace}));
     }
+    let n_buf = run_buffered_receiver(&mut out);
+    out.set("receiver_with_buffered_deliveries_cases", n_buf);
     let n_cross = run_crossing_disposition(&mut out);
     out.set("crossing_disposition_cases", n_cross);
     out.set("states", st.distinct_states.max(1));
@@ -890,6 +892,101 @@ pub fn run(ctx: &Ctx) -> Outcome {
     out.set("rule", "states = distinct (links attached, session alive/over, peer ended/detached, withheld answers, end sent) at quiescence; every state reached by executing the real link, session and connection engines against the scripted peer");
     out.assume("the scripted peer acts at quiescent points; 'no later than the application's next operation on that link' is checked after the next local send/detach/close/drop on the link");
     out
+}
+
+/// A RECEIVING link with `n` deliveries the application has not taken, the peer's CLOSING detach behind them, then the
+/// application's detach() or close(): "a peer's detach is answered in kind (closing with closing) no later than the
+/// owning application's next operation on that link" and "later at most one detach for that attach".
+pub async fn buffered_receiver_scenario(n: u32, with_error: bool, close: bool) -> (Vec<(String, String)>, Vec<String>, Option<String>) {
+    let mut fails = vec![];
+    let mut auto = Auto::default();
+    auto.max_frame_size = 4096;
+    let mut c = match scen::open_client(auto, 4096).await {
+        Ok(c) => c,
+        Err(e) => return (fails, vec![], Some(e)),
+    };
+    let mut session = match scen::begin(&mut c, Session::builder()).await {
+        Ok(s) => s,
+        Err(e) => return (fails, vec![], Some(e)),
+    };
+    let mut receiver = match drive(&mut c.peer, Receiver::builder().name("r").source("q").credit_mode(fe2o3_amqp::link::receiver::CreditMode::Manual).attach(&mut session), Duration::from_secs(3)).await {
+        Some(Ok(r)) => r,
+        _ => return (fails, trace_to_strings(&c.peer.trace), Some("buffered receiver: attach failed".into())),
+    };
+    let _ = drive(&mut c.peer, receiver.set_credit(10), Duration::from_secs(3)).await;
+    settle(&mut c.peer, 1).await;
+    let Some(link) = c.peer.links.last().cloned() else {
+        return (fails, trace_to_strings(&c.peer.trace), Some("buffered receiver: no link".into()));
+    };
+    for k in 0..n {
+        let t = Transfer {
+            handle: Handle(link.our_handle),
+            delivery_id: Some(k),
+            delivery_tag: Some(serde_bytes::ByteBuf::from(k.to_be_bytes().to_vec())),
+            message_format: Some(0),
+            settled: Some(true),
+            more: false,
+            rcv_settle_mode: None,
+            state: None,
+            resume: false,
+            aborted: false,
+            batchable: false,
+        };
+        c.peer.send_perf(0, Performative::Transfer(t), &[0x00, 0x53, 0x77, 0x40]);
+    }
+    c.peer.send(0, Performative::Detach(Detach { handle: Handle(link.our_handle), closed: true, error: if with_error { Some(peer_err("peer detach")) } else { None } }));
+    settle(&mut c.peer, 2).await;
+    let mark = c.peer.trace.len();
+    let res = if close {
+        drive(&mut c.peer, receiver.close(), Duration::from_secs(3)).await.map(|r| r.map_err(|e| e.to_string()))
+    } else {
+        drive(&mut c.peer, receiver.detach(), Duration::from_secs(3)).await.map(|r| r.map(|_| ()).map_err(|(_, e)| e.to_string()))
+    };
+    settle(&mut c.peer, 2).await;
+    let lib: Vec<&WFrame> = c.peer.trace[mark..].iter().filter(|w| w.dir == Dirn::FromLib).collect();
+    let detaches: Vec<bool> = lib.iter().filter_map(|w| match w.perf() {
+        Some(Performative::Detach(d)) if d.handle.0 == link.lib_handle => Some(d.closed),
+        _ => None,
+    }).collect();
+    let reattached = lib.iter().any(|w| matches!(w.perf(), Some(Performative::Attach(a)) if a.name == "r"));
+    let what = format!("receiving link with {n} delivery(ies) not taken by the application, the peer's closing detach ({}) behind them, then {}() -> {:?}", if with_error { "with error" } else { "no error" }, if close { "close" } else { "detach" }, res);
+    if res.is_none() {
+        fails.push(("detach-hangs (receiver, deliveries buffered)".to_string(), format!("{what}: the call did not return although the peer's detach had arrived")));
+    }
+    match detaches.first() {
+        None => fails.push(("peer-detach-unanswered (receiver, deliveries buffered)".to_string(), format!("{what}: no detach was written in answer"))),
+        Some(false) => fails.push(("peer-detach-not-answered-in-kind (receiver, deliveries buffered)".to_string(), format!("{what}: the peer's CLOSING detach was answered with a non-closing detach (detaches written: {:?}, re-attached: {reattached})", detaches))),
+        Some(true) => {}
+    }
+    if detaches.len() > 1 || reattached {
+        fails.push(("second-detach (receiver, deliveries buffered)".to_string(), format!("{what}: detaches written {:?}, link re-attached: {reattached}", detaches)));
+    }
+    (fails, trace_to_strings(&c.peer.trace), None)
+}
+
+fn run_buffered_receiver(out: &mut Outcome) -> u64 {
+    let mut cnt = 0;
+    for n in [0u32, 1, 3] {
+        for with_error in [false, true] {
+            for close in [false, true] {
+                let scen: Scenario<(Vec<(String, String)>, Vec<String>, Option<String>)> = Arc::new(move || Box::pin(buffered_receiver_scenario(n, with_error, close)));
+                let ex = run_exec(vec![], &RunCfg::none(), &scen);
+                cnt += 1;
+                match ex.out {
+                    Some((fails, trace, mach)) => {
+                        if let Some(m) = mach {
+                            out.machinery_errors.push(m);
+                        }
+                        for (s, d) in fails {
+                            out.violation(s, d, json!({"kind": "buffered-receiver", "n": n, "with_error": with_error, "close": close, "trace": trace}));
+                        }
+                    }
+                    None => out.machinery_errors.push(format!("buffered receiver scenario died: {:?}", ex.panics)),
+                }
+            }
+        }
+    }
+    cnt
 }
 
 /// A peer's DISPOSITION that crosses a local end.  The sender link settles second: the receiver's unsettled terminal
@@ -993,6 +1090,25 @@ fn replay(p: &std::path::Path, mut out: Outcome) -> Outcome {
     let s = std::fs::read_to_string(p).unwrap_or_default();
     let j: serde_json::Value = serde_json::from_str(&s).unwrap_or_default();
     let r = &j["replay"];
+    if r["kind"] == "buffered-receiver" {
+        let (n, we, cl) = (r["n"].as_u64().unwrap_or(1) as u32, r["with_error"].as_bool().unwrap_or(false), r["close"].as_bool().unwrap_or(false));
+        let scen: Scenario<(Vec<(String, String)>, Vec<String>, Option<String>)> = Arc::new(move || Box::pin(buffered_receiver_scenario(n, we, cl)));
+        let ex = run_exec(vec![], &RunCfg::none(), &scen);
+        if let Some((fails, trace, _)) = ex.out {
+            for l in &trace {
+                println!("  {l}");
+            }
+            for (s, d) in fails {
+                println!("  FAIL {s}: {d}");
+                out.violation(s, d, r.clone());
+            }
+        }
+        out.set("states", 1);
+        out.set("transitions", 1);
+        out.set("traces_validated_against_impl", 1);
+        out.set("samples", json!([r]));
+        return out;
+    }
     if r["kind"] == "crossing-disposition" {
         let we = r["with_error"].as_bool().unwrap_or(false);
         let scen: Scenario<(Vec<(String, String)>, Vec<String>, Option<String>)> = Arc::new(move || Box::pin(crossing_disposition_scenario(we)));
